@@ -1,7 +1,111 @@
-(* placeholder until the codec theorems land *)
-From Coq Require Import List.
-From OKE Require Import BytesLemmas.
-Theorem C11_placeholder : forall l x y px py r1 r2,
-  Bytes.lenprefix l x = Some px -> Bytes.lenprefix l y = Some py -> px ++ r1 = py ++ r2 -> x = y /\ r1 = r2.
-Proof. exact lenprefix_inj. Qed.
-Print Assumptions C11_placeholder.
+(* C11 - invalid group elements and scalars are never accepted.  Statements only; proofs in
+   Theory/FieldsValid.v (the decoders build values only through the validators) and
+   Theory/GroupsConcrete.v (what the concrete validators accept).  serde framing is not modelled:
+   the battery splices the same invalid field bytes into the crate's own bincode / JSON encodings. *)
+From Coq Require Import List ZArith.
+From OKE Require Import Bytes Suite Generated Voprf Messages FieldsValid GroupsConcrete Weierstrass Curve25519 Suites.
+Import ListNotations.
+
+(* ---- message level: every element / key field of a decoded login message went through the validator *)
+Theorem C11_credential_request_fields :
+  forall E Sc Pk Sk (CS : Suite E Sc Pk Sk) b m,
+    credential_request_deserialize CS b = Ok m ->
+    o_deser_e (oprf CS) (firstn (o_Noe (oprf CS)) b) = Some (cq_blinded m) /\
+    o_eqb (oprf CS) (o_identity (oprf CS)) (cq_blinded m) = false /\
+    k_deser_pk (ke CS) (skipn KE_NONCE_LEN (skipn (o_Noe (oprf CS)) b)) = Some (k1_client_e_pk (cq_ke1 m)).
+Proof. exact @credential_request_fields_valid. Qed.
+Print Assumptions C11_credential_request_fields.
+
+Theorem C11_credential_response_fields :
+  forall E Sc Pk Sk (CS : Suite E Sc Pk Sk) b m,
+    credential_response_deserialize CS b = Ok m ->
+    o_deser_e (oprf CS) (firstn (o_Noe (oprf CS)) b) = Some (cr_eval m) /\
+    o_eqb (oprf CS) (o_identity (oprf CS)) (cr_eval m) = false /\
+    exists pkb, k_deser_pk (ke CS) pkb = Some (k2_server_e_pk (cr_ke2 m)) /\
+                pkb = firstn (k_Npk (ke CS)) (skipn KE_NONCE_LEN
+                        (skipn (o_Noe (oprf CS) + KE_NONCE_LEN + (k_Npk (ke CS) + envelope_len CS)) b)).
+Proof. exact @credential_response_fields_valid. Qed.
+Print Assumptions C11_credential_response_fields.
+
+Theorem C11_registration_response_fields :
+  forall E Sc Pk Sk (CS : Suite E Sc Pk Sk) b m,
+    registration_response_deserialize CS b = Ok m ->
+    o_deser_e (oprf CS) (firstn (o_Noe (oprf CS)) b) = Some (rr_eval m) /\
+    k_deser_pk (ke CS) (skipn (o_Noe (oprf CS)) b) = Some (rr_server_s_pk m).
+Proof. exact @registration_response_fields_valid. Qed.
+Print Assumptions C11_registration_response_fields.
+
+Theorem C11_password_file_fields :
+  forall E Sc Pk Sk (CS : Suite E Sc Pk Sk) b m,
+    registration_upload_deserialize CS b = Ok m ->
+    k_deser_pk (ke CS) (firstn (k_Npk (ke CS)) b) = Some (ru_client_s_pk m).
+Proof. exact @registration_upload_fields_valid. Qed.
+Print Assumptions C11_password_file_fields.
+
+Theorem C11_server_setup_fields :
+  forall E Sc Pk Sk (CS : Suite E Sc Pk Sk) b s,
+    server_setup_deserialize CS (private_key_ops (ke CS)) b = Ok s ->
+    k_deser_sk (ke CS) (slice b (h_len (hash CS)) (k_Nsk (ke CS))) = Some (kp_sk (ss_keypair s)) /\
+    k_deser_sk (ke CS) (skipn (h_len (hash CS) + k_Nsk (ke CS)) b) = Some (kp_sk (ss_fake_keypair s)) /\
+    kp_pk (ss_keypair s) = k_pub (ke CS) (kp_sk (ss_keypair s)).
+Proof. exact @server_setup_fields_valid. Qed.
+Print Assumptions C11_server_setup_fields.
+
+Theorem C11_client_login_state_fields :
+  forall E Sc Pk Sk (CS : Suite E Sc Pk Sk) b s,
+    client_login_deserialize CS b = Ok s ->
+    o_deser_s (oprf CS) (firstn (o_Nok (oprf CS)) b) = Some (cl_blind s) /\
+    (exists kb, k_deser_sk (ke CS) kb = Some (k1s_client_e_sk (cl_ke1_state s)) /\
+                kb = firstn (k_Nsk (ke CS)) (skipn (o_Nok (oprf CS) + (o_Noe (oprf CS) + ke1_message_len CS)) b)) /\
+    o_eqb (oprf CS) (o_identity (oprf CS)) (cq_blinded (cl_request s)) = false.
+Proof. exact @client_login_fields_valid. Qed.
+Print Assumptions C11_client_login_state_fields.
+
+(* ---- what the concrete validators accept *)
+(* NIST (P-256/384/521), OPRF elements and key-exchange keys alike: a finite point on the curve, coordinates reduced *)
+Theorem C11_nist_points_on_curve :
+  forall (C : wcurve), (0 < w_p C)%Z -> forall c b P,
+    w_deser_gen C c b = Some P ->
+    length b = w_Npk C /\
+    exists x y, P = Some (x, y) /\ (0 <= x < w_p C)%Z /\ ((y * y) mod w_p C = w_rhs C x)%Z.
+Proof. exact w_decoder_only_accepts_curve_points. Qed.
+Print Assumptions C11_nist_points_on_curve.
+
+Theorem C11_nist_scalars_in_range :
+  forall (C : wcurve) b k, w_deser_scalar C b = Some k -> (0 < k < w_n C)%Z.
+Proof. exact w_scalar_valid. Qed.
+Print Assumptions C11_nist_scalars_in_range.
+
+Theorem C11_ristretto_scalars_in_range :
+  forall b k, r_deser_scalar b = Some k -> (0 < k < ell)%Z /\ length b = 32.
+Proof. exact r_scalar_valid. Qed.
+Print Assumptions C11_ristretto_scalars_in_range.
+
+Theorem C11_ristretto_elements_decode :
+  forall b e, rb_deser b = Some e -> e = b /\ length b = 32 /\ exists P, r_deser_gen false b = Some P.
+Proof. exact ristretto_pk_valid. Qed.
+Print Assumptions C11_ristretto_elements_decode.
+
+Theorem C11_ristretto_identity_rejected : rb_deser rb_identity = None.
+Proof. exact ristretto_rejects_identity. Qed.
+Print Assumptions C11_ristretto_identity_rejected.
+
+(* Curve25519: 32 bytes, not the identity, not of small order ([8]u is not the point at infinity) *)
+Theorem C11_x25519_public_keys :
+  forall b pk, x_deser_pk b = Some pk ->
+    pk = b /\ length b = 32 /\ mont_is_identity b = false /\ mont_is_identity (mont_mul_bits 4 8 b) = false.
+Proof. exact x25519_pk_valid. Qed.
+Print Assumptions C11_x25519_public_keys.
+
+Theorem C11_x25519_small_order_rejected :
+  forallb (fun u => match x_deser_pk (Field.Z_to_bytes_le 32 u) with None => true | Some _ => false end)
+          [0; 1; p25519 - 1; p25519; p25519 + 1;
+           325606250916557431795983626356110631294008115727848805560023387167927233504;
+           39382357235489614581723060781553021112529911719440698176882885853963445705823]%Z = true.
+Proof. exact x25519_rejects_small_order. Qed.
+Print Assumptions C11_x25519_small_order_rejected.
+
+Theorem C11_x25519_private_keys :
+  forall b s, x_deser_sk b = Some s -> s = b /\ length b = 32 /\ clamp b = b /\ b <> zeros 32.
+Proof. exact x25519_sk_valid. Qed.
+Print Assumptions C11_x25519_private_keys.
